@@ -451,7 +451,7 @@ func shape(e *Exchange) string {
 
 func run(c Case) kit.Verdict {
 	v := runOnce(c, kit.T())
-	if len(v) > 0 && strings.Contains(v[0].Sig, "/timeout") {
+	if len(v) > 0 && strings.Contains(v[0].Sig, "/timeout") && !kit.Shrinking() {
 		// a bounded wait expired: re-validate once in isolation with a longer bound
 		v2 := runOnce(c, 3*kit.T())
 		if len(v2) == 0 {
